@@ -21,6 +21,27 @@ CLAIMED = {
  "C15": ("proptest-generated PRF/PRNG call schedules across evaluator instances; exact twin-generator differential for bounded draws; chi-square uniformity tests",
          "Random search with shrinking over PRF / PermutationFromPRF graphs with harness-chosen keys (equal, one-bit-flipped), counters, output types crossing every buffer boundary, evaluated node-by-node in several evaluator instances, orders, repeats and interleavings: purity, separation, validity (check_type, no stray bits, true permutations), seed replay; bounded draws compared exactly (values and bytes consumed) with a reference rejection sampler on a twin PRNG for all small moduli and boundary moduli; chi-square uniformity for bounded draws and permutations (false-alarm < e^-36 per test).",
          "Trusted: AES as PRF core (cryptographic quality assumed); reference rejection sampler in the harness. Modulo bias below 2^-8 relative inside PermutationFromPRF is statistically out of reach."),
+ "C05": ("proptest-generated one-op Truncate graphs compiled and evaluated under several random tapes (global evaluator and three-party executor); exact integer oracle with the documented error band; boundary grid over all (type,k)",
+         "Random search with shrinking plus a deterministic grid over every (scalar type, k) pair: inputs from the documented range with boundaries forced in, owners party/shared/public, all output lists, 3 inline modes, 3 global tapes and 2 three-party rounds per case. Oracle in exact integer arithmetic: 2^k protocol gives floor or floor+1; general signed protocol gives the toward-zero quotient +-1 or the documented wrap-around (recognised by its signature and counted); public input is exact.",
+         "Trusted: harness i128 arithmetic; the documented input range and wrap event as stated in mpc_truncate.rs. The probability of the wrap is not bounded; faults confined to specific tapes of wide types are out of reach."),
+ "C07": ("proptest-generated contexts with nested Call/Iterate and constructive annotated iterate bodies; differential oracle native Call/Iterate evaluation vs evaluation of the inlined context; full length sweep 0..40",
+         "Random search with shrinking over contexts of 2-6 graphs (general, empty-state, associative incl. non-commutative, one-bit-state, small-state K=1..4 bodies satisfying their contracts by construction; wrappers, Iterate inside Call/Iterate; lengths 0..40 with the algorithm switch points forced) x default mode x call/iterate overrides, plus a complete sweep of every annotated operation x every length 0..40 x 3 modes. Oracle: SimpleEvaluator's native Call/Iterate vs evaluation of inline_operations output; for random bodies freshness relations between inlined copies.",
+         "Trusted: reference semantics of Call/Iterate in evaluators.rs; associativity of generated bodies is re-checked on the generated values (failure = generator bug, exit 2). 128-bit types and custom ops inside bodies are not generated."),
+ "C08": ("exhaustive pairs of library custom-operation parameterisations + proptest-generated mixed contexts; oracle = per-node single-operation instantiation",
+         "Every unordered pair from a catalogue of 67 parameterised library custom operations on equal argument types (exhaustive), and generated contexts of 1-3 graphs mixing all library custom ops with nesting through harness-defined wrapper ops: run_instantiation_pass must succeed whenever every custom_op call type-checked, must leave no Custom node, and every node must equal the per-node definition (the same operation instantiated alone on the same argument types).",
+         "Trusted: a custom operation instantiated alone in a one-node context defines its function (approximate ops are compared with themselves). Five name-collision defects found here were repaired (fix: commit bacbce4)."),
+ "C10": ("proptest-generated one-operation graphs vs an independent reference interpreter (refsem.rs) written from the documentation",
+         "Random search with shrinking over one-operation graphs: every primitive operation named by the property x all 11 scalar types x shapes up to rank 4 with size-1 broadcasting x all parameters x extreme values; inferred type and every element compared with refsem (nested-loop NumPy-style modular semantics written from the Graph doc comments). 386 (operation, scalar type) cells, each with >1000 cases in the quick tier.",
+         "Trusted: the reference interpreter; three conventions absent from the docs are stated as assumptions (signed Truncate rounds toward zero, A2B bit 0 is least significant, ApplyPermutation(a,p)[i]=a[p[i]]). The 128-bit truncation defect of structural ops was repaired (fix: commit 541780f)."),
+ "C14": ("proptest-generated typed values and PRNG seeds; reconstruction/layout oracles via the harness's own modular adder; metamorphic junk-independence; chi-square uniformity on small types",
+         "Random search with shrinking over all type shapes x values x seeds for secret_share / get_local_shares_for_each_party / ReplicatedShares / share_vector: shares reconstruct (independent type-recursive adder), party i holds exactly shares i and i+1 consistently with its neighbours, any two parties reconstruct, the third slot is unrelated junk that does not change with the secret, each share shifts with the secret identically under different seeds; chi-square tests of each party's held pair for 1-2 bit types over 20000 seeds (run-level false alarm < 1e-10).",
+         "Trusted: hv.rs arithmetic and codec; AES-based PRNG quality. Uniformity is tested statistically only on 1-2 bit types/projections."),
+ "C16": ("exhaustive operand pairs for small widths, deterministic boundary sweep for every width 1..128, proptest pairs with broadcasting; oracle = native integer comparison",
+         "All 4^w operand pairs for w<=6 (quick) / 8-9 (thorough) in four broadcast layouts; a boundary sweep (equal, single-bit differences at every position, carry chains, sign boundary, boundary cross product) for every width 1..128; generated batches with rank 0-3 broadcasting for widths 1..128: six comparisons + Min/Max, signed and unsigned, compared element-wise with native u128/i128 comparison and NumPy broadcasting done by the harness.",
+         "Trusted: harness broadcasting walk and integer decoding (bit 0 least significant). Evaluation through SimpleEvaluator after instantiation only."),
+ "C18": ("proptest-generated tables/permutations vs an independent stable-sort reference; exhaustive permutations n<=5; compiled sort vs reference under global and three-party execution",
+         "Random search with shrinking: Sort on tables (1-12 rows, key widths 1-10 incl. odd widths, duplicate keys, 0-3 payload columns of any type/rank) vs the harness's own stable sort applied to every column; SortByIntegerKey for all 11 key types (row multiset preserved, key non-decreasing numerically); all permutations n<=5 and random n<=12: apply then inverse restores the array and the two are gather/scatter; compiled Sort/ApplyPermutation(public permutation)/integer-key sort vs the reference with the global evaluator (2 seeds) and the three-party executor.",
+         "Trusted: the harness reference sort/gather; execution model of runtime.md. Private additively-shared permutation operands are excluded (known finding F-C01-1)."),
  "C13": ("proptest generated integers/values vs reference byte encoder and structural layout predicate; JSON round-trip oracle",
          "Random search with shrinking over (scalar type x source integer type x boundary-heavy integers x ragged bit arrays x nested container types): read-back == integers mod 2^w with sign extension, bytes == the harness's own little-endian/LSB-first encoder, check_type <=> independent layout predicate (matching and near-miss layouts), JSON text parses back to an equal typed value. Sampling, not proof.",
          "Trusted: the harness's reference encoder/decoder (hv.rs) and layout predicate; serde_json itself. Two JSON format limitations are recorded as known findings and excluded by signature."),
